@@ -43,6 +43,7 @@ class TryInfo:
         self.node = node
         self.fi = fi
         self.handlers = handlers   # (caught type names or None for bare, reraises?)
+        self.handler_falls = False  # does some handler complete normally (execution continues after the try)?
 
 
 class Event:
@@ -761,6 +762,7 @@ class _Run:
             out |= oh
         ctx.pc = base_pc
         ctx.scope.env = dict(env_after_body)
+        ti.handler_falls = any_handler_falls
         if any_handler_falls:
             self._havoc(names)
         if not st.handlers:
